@@ -9,7 +9,7 @@ FUNCTIONS = [
     "batchie.models.main.predict_viability_all / predict_mean_all / predict_variance_all / predict_mean_avg / predict_viability_avg",
 ]
 BOUNDS = {
-    "quick": "nS=2 samples, nT=3 treatments, D=2 embedding dims, N=2 rows, every id pattern (sample in [0,nS), treatment in [-1,nT)) enumerated by the solver, plus a fully symbolic-id (ite-merged) arity-1 run; all parameters symbolic reals; 3 posterior samples for the stacked/averaged helpers; the sample's parameter dictionaries compared before / after prediction",
+    "quick": "nS=2 samples, nT=3 treatments, D=2 embedding dims, N=2 rows, every id pattern (sample in [0,nS), treatment in [-1,nT)) enumerated by the solver, plus a fully symbolic-id (ite-merged) arity-1 run; all parameters symbolic reals; 3 posterior samples for the stacked/averaged helpers; the sample's parameter dictionaries compared before / after prediction; arity-2 and arity-1 predictions on 4 rows (thorough: 5 rows, 3 samples) with every sample pattern and a fixed treatment pattern",
     "thorough": "nS=3, nT=4, D=3, N=2 rows, every id pattern; symbolic-id runs for arity 1 and 2; helpers with 3 posterior samples on N=3",
 }
 ASSUMPTIONS = [
